@@ -378,7 +378,7 @@ func (x *Exec) step(st *State, fn *ssa.Function, ins ssa.Instruction, top bool) 
 	case *ssa.MakeSlice:
 		lv := x.get(st, ins.Len)
 		cv := x.get(st, ins.Cap)
-		x.panicObl(st, ins, "neglen", fmt.Sprintf("(and (<= 0 %s) (<= %s %s) (<= %s 281474976710656))", lv.T, lv.T, cv.T, cv.T), "make: len out of range")
+		x.panicObl(st, ins, "neglen", fmt.Sprintf("(and (<= 0 %s) (<= %s %s) (<= %s 9223372036854775807))", lv.T, lv.T, cv.T, cv.T), "make: len out of range")
 		et := ins.Type().Underlying().(*types.Slice).Elem()
 		r := st.alloc(types.NewArray(et, 0))
 		st.env[ins] = Value{K: VSlice, Arr: r.T, Off: "0", Len: lv.T, Cap: cv.T, Ty: ins.Type()}
